@@ -158,7 +158,7 @@ def spec() -> Spec:
         generate=generate,
         extract=extract,
         nontrivial=nontrivial,
-        budget={"quick": 350, "thorough": 8000},
+        budget={"quick": 350, "thorough": 3500},
         search_budget={"quick": 1500, "thorough": 12000},
         rule="handshake histories from 1-3 claimed peers against a real Node under the virtual clock through perform_handshake, "
              "handle_transport_handshake and the session layer's inbound socket path; valid / invalid key (0, 1, p, p+5, 2^32-1) / invalid "
